@@ -6,6 +6,7 @@ package main
 // validation and evaluates the observable-level oracles of the properties.
 
 import (
+	"bytes"
 	"context"
 	"errors"
 	"fmt"
@@ -16,6 +17,8 @@ import (
 	"time"
 
 	netty "github.com/go-netty/go-netty"
+	"github.com/go-netty/go-netty/codec/format"
+	"github.com/go-netty/go-netty/codec/frame"
 
 	"verifharness/mock"
 	"verifharness/sched"
@@ -26,6 +29,7 @@ type OpSpec struct {
 	Ctx   string `json:"ctx"`   // bg dead mortal
 	Size  int    `json:"size"`  // payload size
 	Parts int    `json:"parts"` // number of slices for vectored kinds
+	Chunks []int `json:"chunks"` // RF/MR/MT: sizes of the low-level writes the call consists of
 }
 
 type WriterSpec struct {
@@ -62,6 +66,7 @@ type ChanCase struct {
 	Seed     int64        `json:"seed"`
 	MaxSteps int          `json:"max_steps"`
 	NoTrace  bool         `json:"no_trace"`
+	Codec    bool         `json:"codec"` // pipeline = text codec + delimiter codec ("\x00"); wire parsed by delimiter
 	Props    []string     `json:"props"` // which oracles to apply (empty = all)
 }
 
@@ -109,11 +114,20 @@ type ChanResult struct {
 	Polls      int               `json:"polls"`
 }
 
+type chunkRun struct {
+	op    *opRun
+	j     int // 1-based
+	data  []byte
+	inPos int // position in the parsed stream (-1 = absent)
+}
+
 type opRun struct {
 	w       string
 	idx     int // 1-based
 	spec    OpSpec
 	payload []byte
+	chunks  []*chunkRun
+	accepted int // chunks that entered the queue so far
 	began   int // step index of the w.enter release (-1 = not begun)
 	ret     int // step index at which the call was seen returned (-1 = not yet)
 	res     string
@@ -136,7 +150,7 @@ type chanWorld struct {
 	ex       *mock.Executor
 	ch       netty.Channel
 	ops      map[string][]*opRun
-	byID     map[byte]*opRun
+	byID     map[byte]*chunkRun
 	rets     map[string][]string
 	cancels  map[string]context.CancelFunc
 	closeErr map[string]error
@@ -157,10 +171,10 @@ type chanWorld struct {
 	faultsUsed   int
 	closersDone  map[string]bool
 
-	accOrder   []*opRun          // ops in the order their packet entered the queue (observed)
+	accOrder   []*chunkRun       // chunks in the order their packet entered the queue (observed)
 	prevLoc    map[string]string // writer -> location after the previous step
 	parsedOff  int
-	parsed     []*opRun
+	parsed     []*chunkRun
 	fails      []Fail
 	failKeys   map[string]bool
 	ctxErrSeen map[string]bool
@@ -209,7 +223,7 @@ func (p probe) HandleException(ctx netty.ExceptionContext, ex netty.Exception) {
 // of the low-level write per process (Channel.Write itself reports nil either way).
 func (p probe) HandleWrite(ctx netty.OutboundContext, message netty.Message) {
 	b, ok := message.([]byte)
-	if !ok {
+	if !ok || p.w.c.Codec {
 		ctx.HandleWrite(message)
 		return
 	}
@@ -229,6 +243,65 @@ func (p probe) HandleWrite(ctx netty.OutboundContext, message netty.Message) {
 func (p probe) HandleInactive(ctx netty.InactiveContext, ex netty.Exception) {
 	p.w.inactives = append(p.w.inactives, ex)
 	ctx.HandleInactive(ex)
+}
+
+// present: every non-empty chunk of the call is on the transport
+func (o *opRun) present() bool {
+	for _, c := range o.chunks {
+		if len(c.data) > 0 && c.inPos < 0 {
+			return false
+		}
+	}
+	return true
+}
+
+func (o *opRun) anyPresent() bool {
+	for _, c := range o.chunks {
+		if len(c.data) > 0 && c.inPos >= 0 {
+			return true
+		}
+	}
+	return false
+}
+
+func (o *opRun) multi() bool { return len(o.chunks) > 1 }
+
+func isMsgKind(k string) bool {
+	switch k {
+	case "M", "MR", "MT", "MV", "MB", "MD", "MS":
+		return true
+	}
+	return false
+}
+
+// chunkReader yields one chunk per Read (ReadFrom asks for up to 1024 bytes at a time).
+type chunkReader struct {
+	chunks [][]byte
+	i      int
+}
+
+func (r *chunkReader) Read(p []byte) (int, error) {
+	if r.i >= len(r.chunks) {
+		return 0, io.EOF
+	}
+	n := copy(p, r.chunks[r.i])
+	r.i++
+	return n, nil
+}
+
+// chunkWriterTo writes one chunk per Write call (an io.WriterTo message that is not also a reader).
+type chunkWriterTo struct{ chunks [][]byte }
+
+func (c chunkWriterTo) WriteTo(w io.Writer) (int64, error) {
+	var total int64
+	for _, ch := range c.chunks {
+		n, err := w.Write(ch)
+		total += int64(n)
+		if err != nil {
+			return total, err
+		}
+	}
+	return total, nil
 }
 
 func payloadFor(seed int64, id byte, size int) []byte {
@@ -324,6 +397,50 @@ func (w *chanWorld) writerMain(ws WriterSpec) func() {
 				if err == nil {
 					n = int64(len(buf))
 				}
+			case "MV":
+				delete(w.excOn, ws.Name)
+				err = w.ch.Write(splitParts(buf, op.spec.Parts))
+				if err == nil {
+					n = int64(len(buf))
+				}
+			case "MB":
+				delete(w.excOn, ws.Name)
+				err = w.ch.Write(bytes.NewBuffer(buf))
+				if err == nil {
+					n = int64(len(buf))
+				}
+			case "MD", "MS":
+				// through the shipped codecs: MD = []byte via the delimiter codec (vectored write),
+				// MS = string via text codec + delimiter codec (a reader: body, then delimiter)
+				delete(w.excOn, ws.Name)
+				if op.spec.Kind == "MD" {
+					err = w.ch.Write(buf)
+				} else {
+					err = w.ch.Write(string(buf))
+				}
+				if err == nil {
+					n = int64(len(buf))
+				}
+			case "RF", "MR", "MT":
+				var cs [][]byte
+				off := 0
+				for _, c := range op.chunks {
+					cs = append(cs, buf[off:off+len(c.data)])
+					off += len(c.data)
+				}
+				switch op.spec.Kind {
+				case "RF":
+					n, err = w.ch.ReadFrom(&chunkReader{chunks: cs})
+				case "MR":
+					delete(w.excOn, ws.Name)
+					err = w.ch.Write(&chunkReader{chunks: cs})
+				default:
+					delete(w.excOn, ws.Name)
+					err = w.ch.Write(chunkWriterTo{cs})
+				}
+				if op.spec.Kind != "RF" && err == nil {
+					n = int64(len(buf))
+				}
 			case "W1":
 				var m int
 				m, err = w.ch.Write1(buf)
@@ -377,8 +494,8 @@ func (w *chanWorld) state() ChanSt {
 	flushed := 0
 	_, fl, _ := w.tr.Lens()
 	off := 0
-	for _, op := range w.parsed {
-		off += len(op.payload)
+	for _, ck := range w.parsed {
+		off += len(ck.data)
 		if off <= fl {
 			flushed++
 		}
@@ -390,35 +507,89 @@ func (w *chanWorld) state() ChanSt {
 	}
 }
 
-// parse consumes new stream bytes into whole payloads, identified by their
-// first byte; zero-length payloads never appear in the stream.
+// parse consumes new stream bytes into whole chunks, identified by their first byte;
+// zero-length chunks never appear in the stream.
 func (w *chanWorld) parse() {
 	stream, _, _, _ := w.tr.Snapshot()
+	if w.c.Codec {
+		w.parseFrames(stream)
+		return
+	}
 	for w.parsedOff < len(stream) {
 		id := stream[w.parsedOff]
-		op := w.byID[id]
-		if op == nil {
+		ck := w.byID[id]
+		if ck == nil {
 			w.fail("C01", "garbage", fmt.Sprintf("transport byte %d at offset %d starts no known payload", id, w.parsedOff))
 			w.parsedOff = len(stream)
 			return
 		}
-		end := w.parsedOff + len(op.payload)
+		op := ck.op
+		end := w.parsedOff + len(ck.data)
 		if end > len(stream) {
 			w.fail("C01", "truncated", fmt.Sprintf("payload %s.%d truncated on the transport at offset %d", op.w, op.idx, w.parsedOff))
 			w.parsedOff = len(stream)
 			return
 		}
-		if string(stream[w.parsedOff:end]) != string(op.payload) {
+		if string(stream[w.parsedOff:end]) != string(ck.data) {
 			w.fail("C01", "modified", fmt.Sprintf("payload %s.%d (%s) modified on the transport", op.w, op.idx, op.spec.Kind))
 		}
-		if op.inPos >= 0 {
+		if ck.inPos >= 0 {
 			w.fail("C01", "duplicate", fmt.Sprintf("payload %s.%d transmitted twice", op.w, op.idx))
 		} else {
-			op.inPos = len(w.parsed)
+			ck.inPos = len(w.parsed)
 		}
-		w.parsed = append(w.parsed, op)
+		w.parsed = append(w.parsed, ck)
 		w.parsedOff = end
 	}
+}
+
+// parseFrames (codec mode): the wire is a sequence of frames terminated by the delimiter; every
+// complete frame must be exactly the body of one message
+func (w *chanWorld) parseFrames(stream []byte) {
+	for {
+		rest := stream[w.parsedOff:]
+		k := bytes.IndexByte(rest, 0)
+		if k < 0 {
+			return
+		}
+		frm := rest[:k]
+		w.parsedOff += k + 1
+		var ck *chunkRun
+		if len(frm) > 0 {
+			ck = w.byID[frm[0]]
+		}
+		if ck == nil || string(ck.data) != string(frm) {
+			who := "?"
+			if ck != nil {
+				who = fmt.Sprintf("%s.%d (%s)", ck.op.w, ck.op.idx, ck.op.spec.Kind)
+			}
+			// a []byte message leaves the delimiter codec as one vectored write; only the reader
+			// produced for a string message (body, then delimiter) is sent in several writes
+			kind := "MS"
+			if ck != nil && ck.op.spec.Kind == "MD" && !w.hasKind("MS") {
+				kind = "MD"
+			}
+			w.fail("C09", "carrier="+kind+"/codec-frame", fmt.Sprintf("wire frame #%d (%d bytes, starts like %s) is not the body of one message: bytes of different messages interleaved", len(w.parsed), len(frm), who))
+			continue
+		}
+		if ck.inPos >= 0 {
+			w.fail("C01", "duplicate", fmt.Sprintf("message %s.%d framed twice", ck.op.w, ck.op.idx))
+		} else {
+			ck.inPos = len(w.parsed)
+		}
+		w.parsed = append(w.parsed, ck)
+	}
+}
+
+func (w *chanWorld) hasKind(k string) bool {
+	for _, ws := range w.c.Writers {
+		for _, op := range ws.Ops {
+			if op.Kind == k {
+				return true
+			}
+		}
+	}
+	return false
 }
 
 func (w *chanWorld) allOps() []*opRun {
@@ -436,18 +607,40 @@ func (w *chanWorld) oracleStep(noFault bool) {
 	batchCap := w.c.QSize/2 + 1
 	unsent := 0
 	for _, op := range ops {
-		present := op.inPos >= 0
-		if present && op.began < 0 {
+		if op.anyPresent() && op.began < 0 {
 			w.fail("C01", "phantom", fmt.Sprintf("payload %s.%d on the transport before its call began", op.w, op.idx))
 		}
-		if op.ret >= 0 && present && len(op.payload) > 0 {
+		if op.ret >= 0 && !op.multi() && op.anyPresent() {
 			switch op.res {
 			case "nospace", "ctx", "closed", "zero":
 				w.fail("C01", "err-bytes/"+op.res, fmt.Sprintf("%s.%d (%s) returned %s (%v) but its bytes were transmitted", op.w, op.idx, op.spec.Kind, op.res, op.err))
 			}
 		}
-		if op.ret >= 0 && op.res == "ok" && !present && len(op.payload) > 0 {
+		if op.ret >= 0 && op.res == "ok" && !op.present() {
 			unsent++
+		}
+		// C09: the low-level writes of one call are contiguous on the transport
+		lo, hi, cnt := -1, -1, 0
+		for _, ck := range op.chunks {
+			if ck.inPos >= 0 {
+				if lo < 0 || ck.inPos < lo {
+					lo = ck.inPos
+				}
+				if ck.inPos > hi {
+					hi = ck.inPos
+				}
+				cnt++
+			}
+		}
+		if cnt > 0 && hi-lo+1 != cnt && isMsgKind(op.spec.Kind) {
+			other := w.parsed[lo+1]
+			for i := lo; i <= hi; i++ {
+				if w.parsed[i].op != op {
+					other = w.parsed[i]
+					break
+				}
+			}
+			w.fail("C09", "carrier="+op.spec.Kind+"/multi-write", fmt.Sprintf("the %d low-level writes of %s.%d (%s) are interleaved on the wire with %s.%d", len(op.chunks), op.w, op.idx, op.spec.Kind, other.op.w, other.op.idx))
 		}
 	}
 	if w.c.QSize > 0 && unsent > w.c.QSize+batchCap {
@@ -456,24 +649,24 @@ func (w *chanWorld) oracleStep(noFault bool) {
 	// order: per writer, and returned-before-began
 	for i, a := range w.parsed {
 		for _, b := range w.parsed[i+1:] {
-			if a.w == b.w && a.idx > b.idx {
-				w.fail("C01", "writer-order", fmt.Sprintf("%s.%d transmitted before %s.%d", a.w, a.idx, b.w, b.idx))
+			if a.op.w == b.op.w && (a.op.idx > b.op.idx || (a.op == b.op && a.j > b.j)) {
+				w.fail("C01", "writer-order", fmt.Sprintf("%s.%d/%d transmitted before %s.%d/%d", a.op.w, a.op.idx, a.j, b.op.w, b.op.idx, b.j))
 			}
-			if b.ret >= 0 && a.began >= 0 && b.ret < a.began {
-				w.fail("C01", "real-time-order", fmt.Sprintf("%s.%d returned before %s.%d began but is transmitted after it", b.w, b.idx, a.w, a.idx))
+			if b.op.ret >= 0 && a.op.began >= 0 && b.op.ret < a.op.began {
+				w.fail("C01", "real-time-order", fmt.Sprintf("%s.%d returned before %s.%d began but is transmitted after it", b.op.w, b.op.idx, a.op.w, a.op.idx))
 			}
 		}
 	}
 	// acceptance order (queued channel): the transport log is a prefix of the payloads in the order
 	// they entered the queue
 	if noFault && w.c.QSize > 0 {
-		for i, op := range w.parsed {
+		for i, ck := range w.parsed {
 			if i >= len(w.accOrder) {
 				break
 			}
-			if w.accOrder[i] != op {
+			if w.accOrder[i] != ck {
 				a := w.accOrder[i]
-				w.fail("C01", "acceptance-order", fmt.Sprintf("transport position %d holds %s.%d but %s.%d was accepted %d-th (lost, reordered or overtaken)", i, op.w, op.idx, a.w, a.idx, i))
+				w.fail("C01", "acceptance-order", fmt.Sprintf("transport position %d holds %s.%d but %s.%d was accepted %d-th (lost, reordered or overtaken)", i, ck.op.w, ck.op.idx, a.op.w, a.op.idx, i))
 				break
 			}
 		}
@@ -481,12 +674,12 @@ func (w *chanWorld) oracleStep(noFault bool) {
 	// prefix: an accepted payload is not overtaken by one that began after it returned
 	if noFault {
 		for _, a := range ops {
-			if a.ret < 0 || a.res != "ok" || a.inPos >= 0 || len(a.payload) == 0 {
+			if a.ret < 0 || a.res != "ok" || a.present() {
 				continue
 			}
 			for _, b := range w.parsed {
-				if b.began > a.ret {
-					w.fail("C01", "prefix", fmt.Sprintf("%s.%d (began after %s.%d returned ok) was transmitted while %s.%d is missing", b.w, b.idx, a.w, a.idx, a.w, a.idx))
+				if b.op.began > a.ret {
+					w.fail("C01", "prefix", fmt.Sprintf("%s.%d (began after %s.%d returned ok) was transmitted while %s.%d is missing", b.op.w, b.op.idx, a.w, a.idx, a.w, a.idx))
 				}
 			}
 		}
@@ -495,7 +688,7 @@ func (w *chanWorld) oracleStep(noFault bool) {
 	if w.closeRetStep >= 0 {
 		for _, op := range ops {
 			if op.began > w.closeRetStep {
-				if op.inPos >= 0 && len(op.payload) > 0 {
+				if op.anyPresent() {
 					w.fail("C11", "bytes-after-close/"+op.spec.Kind, fmt.Sprintf("%s.%d (%s) began after Close returned and its bytes reached the transport", op.w, op.idx, op.spec.Kind))
 				}
 				if op.ret >= 0 && op.callerNil {
@@ -567,7 +760,7 @@ func runChanCase(c *ChanCase) *ChanResult {
 	res := &ChanResult{ID: c.ID, Actions: map[string]int{}, Final: map[string]string{}}
 	s := sched.New()
 	w := &chanWorld{
-		c: c, s: s, ops: map[string][]*opRun{}, byID: map[byte]*opRun{}, rets: map[string][]string{},
+		c: c, s: s, ops: map[string][]*opRun{}, byID: map[byte]*chunkRun{}, rets: map[string][]string{},
 		cancels: map[string]context.CancelFunc{}, closeErr: map[string]error{}, failKeys: map[string]bool{},
 		firstRead: -1, serveRet: -1, closeRetStep: -1, winnerRet: -1, closeInvoked: -1,
 		closersDone: map[string]bool{}, ctxErrSeen: map[string]bool{}, excOn: map[string]error{}, lowErr: map[string]error{}, prevLoc: map[string]string{},
@@ -579,6 +772,10 @@ func runChanCase(c *ChanCase) *ChanResult {
 		w.tr.Feed(mock.ReadItem{Data: []byte{byte(i + 1)}})
 	}
 	pl := netty.NewPipeline()
+	if c.Codec {
+		pl.AddLast(frame.DelimiterCodec(1<<20, "\x00", true), format.TextCodec())
+		c.NoTrace = true
+	}
 	pl.AddLast(probe{w})
 	var factory netty.ChannelFactory
 	if c.QSize > 0 {
@@ -609,13 +806,21 @@ func runChanCase(c *ChanCase) *ChanResult {
 	for _, ws := range c.Writers {
 		w.rets[ws.Name] = []string{}
 		for i, op := range ws.Ops {
-			o := &opRun{w: ws.Name, idx: i + 1, spec: op, began: -1, ret: -1, inPos: -1}
-			o.payload = payloadFor(c.Seed, id, op.Size)
-			w.byID[id] = o
-			id++
-			if id >= 64 {
-				res.HarnessErr = "too many ops"
-				return res
+			o := &opRun{w: ws.Name, idx: i + 1, spec: op, began: -1, ret: -1}
+			sizes := []int{op.Size}
+			if len(op.Chunks) > 0 && (op.Kind == "RF" || op.Kind == "MR" || op.Kind == "MT") {
+				sizes = op.Chunks
+			}
+			for j, sz := range sizes {
+				ck := &chunkRun{op: o, j: j + 1, data: payloadFor(c.Seed, id, sz), inPos: -1}
+				o.chunks = append(o.chunks, ck)
+				o.payload = append(o.payload, ck.data...)
+				w.byID[id] = ck
+				id++
+				if id >= 64 {
+					res.HarnessErr = "too many payload chunks"
+					return res
+				}
 			}
 			w.ops[ws.Name] = append(w.ops[ws.Name], o)
 		}
@@ -744,7 +949,7 @@ func runChanCase(c *ChanCase) *ChanResult {
 				}
 			}
 			// bookkeeping before the step
-			if gate == "w.enter" || gate == "m.enter" {
+			if gate == "w.enter" || gate == "m.enter" || gate == "rf.enter" {
 				for _, op := range w.ops[proc] {
 					if op.ret < 0 {
 						if op.began < 0 {
@@ -800,8 +1005,12 @@ func runChanCase(c *ChanCase) *ChanResult {
 			if loc == "w.cas" && w.prevLoc[ws.Name] != "w.cas" {
 				for _, op := range w.ops[ws.Name] {
 					if op.ret < 0 {
-						if len(op.payload) > 0 {
-							w.accOrder = append(w.accOrder, op)
+						if op.accepted < len(op.chunks) {
+							ck := op.chunks[op.accepted]
+							op.accepted++
+							if len(ck.data) > 0 {
+								w.accOrder = append(w.accOrder, ck)
+							}
 						}
 						break
 					}
@@ -819,6 +1028,18 @@ func runChanCase(c *ChanCase) *ChanResult {
 				op.ret = w.step
 				if op.cancelledWaiting && op.res == "ok" {
 					w.fail("C18", "cancel-ignored-result", fmt.Sprintf("%s.%d (%s) was accepted although its context ended while it waited for space", op.w, op.idx, op.spec.Kind))
+				}
+				if isMsgKind(op.spec.Kind) && op.spec.Kind != "M" && op.callerNil && !c.Codec {
+					// Channel.Write reports nil either way: the call succeeded iff every low-level write did
+					w.parse()
+					good := op.accepted == len(op.chunks)
+					if c.QSize == 0 {
+						good = op.present()
+					}
+					if !good {
+						op.res = "mexc"
+						w.rets[ws.Name][i] = "mexc"
+					}
 				}
 				if op.res == "terr" && !op.touched {
 					// a transport error the writer did not cause itself is the stored close
@@ -906,17 +1127,23 @@ func (w *chanWorld) oracleAtTransportClose() {
 	w.parse()
 	_, fl, _ := w.tr.Lens()
 	off := 0
-	flushed := map[*opRun]bool{}
-	for _, op := range w.parsed {
-		off += len(op.payload)
+	flushedCk := map[*chunkRun]bool{}
+	for _, ck := range w.parsed {
+		off += len(ck.data)
 		if off <= fl {
-			flushed[op] = true
+			flushedCk[ck] = true
 		}
 	}
 	for _, op := range w.okAtClose {
-		if len(op.payload) > 0 && !flushed[op] {
+		allFlushed := true
+		for _, ck := range op.chunks {
+			if len(ck.data) > 0 && !flushedCk[ck] {
+				allFlushed = false
+			}
+		}
+		if !allFlushed {
 			state := "still queued"
-			if op.inPos >= 0 {
+			if op.present() {
 				state = "written but not flushed"
 			}
 			w.fail("C06", "lost-at-close", fmt.Sprintf("%s.%d was accepted before Close was invoked but is %s when the transport is closed", op.w, op.idx, state))
@@ -960,7 +1187,7 @@ func (w *chanWorld) oracleQuiescent() {
 	n, fl, _ := w.tr.Lens()
 	if vs.Closed == 0 && w.faultsUsed == 0 {
 		for _, op := range w.allOps() {
-			if op.ret >= 0 && op.res == "ok" && op.inPos < 0 && len(op.payload) > 0 {
+			if op.ret >= 0 && op.res == "ok" && !op.present() {
 				w.fail("C02", "stranded", fmt.Sprintf("%s.%d was accepted but never handed to the transport (queue length %d at quiescence)", op.w, op.idx, vs.QLen))
 			}
 		}
